@@ -68,13 +68,14 @@ pub fn streams(thorough: bool) -> Report {
     use std::sync::mpsc;
     use std::time::Duration;
     let mut r = Report::new(
-        "child processes (sh) writing O bytes 'o' to stdout and E bytes 0xE9 (not valid UTF-8) to stderr for O, E in {0, 1, 100, 70000, 300000} (up to ~5 pipe buffers) in 4 patterns (stderr first, stdout first, 20 alternating slices, both at once from two background jobs) and exiting with status 7, run through output_and_write_streams and spawn_and_write_streams with Vec writers: the call returns within the watchdog time (no deadlock), the returned output and the supplied writers each hold exactly the bytes of their stream, the exit status is passed on; non-trivial = runs where a stream exceeds one pipe buffer",
+        "child processes (sh) writing O bytes 'o' to stdout and E bytes 0xE9 (not valid UTF-8) to stderr for O, E in {0, 1, 100, 70000, 300000} (up to ~5 pipe buffers) plus 1500000 (more than a MiB; concurrent pattern only) in 4 patterns (stderr first, stdout first, 20 alternating slices, both at once from two background jobs) and exiting with status 7, run through output_and_write_streams and spawn_and_write_streams with Vec writers: the call returns within the watchdog time (no deadlock), the returned output and the supplied writers each hold exactly the bytes of their stream, the exit status is passed on; non-trivial = runs where a stream exceeds one pipe buffer",
         if thorough { "5 x 5 volumes x 4 patterns x 2 entry points, watchdog 12 s + 48 s" } else { "5 x 5 volumes x 4 patterns (output_and_write_streams), large volumes also spawn_and_write_streams; watchdog 12 s + 48 s" },
     );
-    let vols = [0usize, 1, 100, 70_000, 300_000];
+    let vols = [0usize, 1, 100, 70_000, 300_000, 1_500_000];   // the last one: more than a MiB per stream (only combined with itself and 0, see below)
     let mut blocked = 0;
     for &o in &vols { for &e in &vols { for pattern in 0..4 { for entry in 0..2 {
         if entry == 1 && !thorough && o.max(e) < 70_000 { continue; }
+        if o.max(e) == 1_500_000 && !((o == 1_500_000 || o == 0) && (e == 1_500_000 || e == 0) && pattern == 3) { continue; }
         if blocked >= 2 { continue; }   // two blocked runs are reported; every further one would only cost another watchdog period
         r.evaluations += 1; if o.max(e) >= 70_000 { r.nontrivial += 1; }
         let emit = |n: usize, c: char, fd: &str| if n == 0 { String::from(":") } else { format!("head -c {n} /dev/zero | tr '\\0' '{}' {fd}", if c == 'e' { "\\351".to_string() } else { c.to_string() }) };
